@@ -353,6 +353,12 @@ func (l *RotateLogger) rotate() error {
 		backupFilename := l.getBackupFilename()
 		err = os.Rename(l.filename, backupFilename)
 		if err != nil {
+			// 重命名失败时当前文件仍在原处：重新以追加方式打开它，否则 l.fp 一直为 nil，
+			// 触发本次轮换的那条记录（以及直到下一次轮换之前的所有记录）都会被静默丢弃。
+			if fp, e := os.OpenFile(l.filename, os.O_APPEND|os.O_WRONLY, defaultFileMode); e == nil {
+				l.fp = fp
+				fs.CloseOnExec(fp)
+			}
 			return err
 		}
 
